@@ -72,7 +72,7 @@ Proof.
       split; [reflexivity|]. split; [lia|]. split.
       * cbn [BTreeBase.shape]. unfold n_count in *. cbn [n_items n_cap n_children]. rewrite removelast_length. repeat split; auto; lia.
       * cbn [flatten map interleave]. apply app_removelast_last. unfold n_count in E0. destruct (n_items n); simpl in *; [lia | discriminate].
-  - pose proof Sh as (H1 & H2 & L & F).
+  - pose proof Sh as (H1 & H2 & L & F & Cpx).
     destruct (shape_child_ex _ _ _ (n_count n) Sh (le_n _)) as (ch & E & Sch).
     cbn [last_nonempty]. rewrite E. specialize (IH ch Sch).
     assert (Fl : flatten n = pre n (n_count n) ++ flatten ch).
@@ -94,7 +94,7 @@ Proof.
         { apply last_nth_error. rewrite L. replace (S (n_count n) - 1) with (n_count n) by lia. exact E. }
         rewrite El in Ecs. split.
         -- cbn [BTreeBase.shape]. unfold n_count in *. cbn [n_items n_cap n_children]. rewrite !removelast_length.
-           split; [lia|]. split; [lia|]. split; [lia|]. apply Forall_removelast. exact F.
+           split; [lia|]. split; [lia|]. split; [lia|]. split; [apply Forall_removelast; exact F | exact Cpx].
         -- cbn [flatten]. rewrite flatten_unfold. rewrite Ecs at 1. rewrite Eks at 1.
            rewrite map_app. cbn [map]. rewrite interleave_app2 by (rewrite map_length, !removelast_length; unfold n_count in *; lia).
            cbn [interleave]. rewrite IH. reflexivity.
@@ -186,13 +186,13 @@ Lemma remove_node_none d nd j :
   shape (S d) nd' /\ flatten nd' = pre nd j ++ tl (post nd j) /\
   nth_error (n_children nd') j = nth_error (n_children nd) (S j) /\ pre nd' j = pre nd j.
 Proof.
-  intros Sh Hj nd'. pose proof Sh as (H1 & H2 & L & F).
+  intros Sh Hj nd'. pose proof Sh as (H1 & H2 & L & F & Cpx).
   destruct (nth_error_ex (n_items nd) j Hj) as [k Ek].
   assert (Lk : length (firstn j (n_items nd)) = j) by (apply firstn_length_le; unfold n_count in Hj; lia).
   assert (Lc : length (firstn j (n_children nd)) = j) by (apply firstn_length_le; unfold n_count in *; lia).
   split; [|split; [|split]].
   - unfold nd'. cbn [BTreeBase.shape]. unfold n_count in *. cbn [n_items n_cap n_children]. unfold remove_at.
-    rewrite !app_length, Lk, Lc, !skipn_length. split; [lia|]. split; [lia|]. split; [lia|].
+    rewrite !app_length, Lk, Lc, !skipn_length. split; [lia|]. split; [lia|]. split; [lia|]. split; [|exact Cpx].
     apply Forall_app. split; [apply Forall_firstn | apply Forall_skipn]; exact F.
   - unfold nd'. rewrite flatten_unfold. cbn [n_children n_items]. unfold remove_at.
     rewrite map_app. rewrite interleave_app by (rewrite map_length, Lc, Lk; reflexivity).
@@ -210,13 +210,13 @@ Lemma remove_node_some d nd j lch lch' x :
   nth_error (n_children nd2) (S j) = nth_error (n_children nd) (S j) /\
   pre nd2 (S j) = pre nd j ++ flatten lch' ++ [x].
 Proof.
-  intros Sh Hj E Sl nd2. pose proof Sh as (H1 & H2 & L & F).
+  intros Sh Hj E Sl nd2. pose proof Sh as (H1 & H2 & L & F & Cpx).
   assert (Hjc : j < length (n_children nd)) by (unfold n_count in *; lia).
   assert (Hjk : j < length (n_items nd)) by exact Hj.
   destruct (nth_error_ex (n_items nd) j Hj) as [k Ek].
   assert (S2 : shape (S d) nd2).
   { unfold nd2. cbn [BTreeBase.shape]. unfold n_count in *. cbn [n_items n_cap n_children].
-    rewrite !replace_at_length by lia. split; [lia|]. split; [lia|]. split; [lia|]. apply Forall_replace_at; auto. }
+    rewrite !replace_at_length by lia. split; [lia|]. split; [lia|]. split; [lia|]. split; [apply Forall_replace_at; auto | exact Cpx]. }
   assert (E2 : nth_error (n_children nd2) j = Some lch') by (apply replace_at_nth_error; exact Hjc).
   assert (P2 : pre nd2 j = pre nd j).
   { unfold nd2. rewrite pre_Node. unfold pre. rewrite firstn_map', !firstn_replace_at, <- firstn_map' by lia. reflexivity. }
